@@ -9,6 +9,9 @@ RULE = ("E1: after EVERY event of every run of S-contend/S-buffer/S-plan/"
         "statuses, arrays in use): query true => truth, and "
         "is_finished == conjunction of the four.  E2: Cluster.is_idle in "
         "every state reachable by cluster operation histories (C02's BFS).  "
+        "E3: is_finished() against all 16 answer combinations of the four "
+        "queries on a real Simulation; observations whose rate rounds to 0 "
+        "(buffer empty while their workflow runs).  "
         "non-trivial = run in which each query was seen both true and false")
 
 
@@ -27,11 +30,81 @@ def cases(tier, seed):
     out = common.add_algs(con + buf + plan,
                           lambda c: common.shipped(c, lvl, "diag"))
     out += common.add_algs(bat, lambda c: common.batch_algs(c, lvl))
+    out += zero_volume_cases()
     return common.rotate(out, seed)
+
+
+def truth_table(rep):
+    """is_finished() == conjunction of the four actor queries, for all 16
+    answers (the four queries are replaced on a real Simulation instance)"""
+    from .. import run as runmod
+    from ..scopes import mkobs, mkcfg, mkcase, dag, CLUSTERS
+    import itertools
+    case = mkcase(mkcfg(CLUSTERS[1][0], [mkobs("a", 0, 1, 1, 1, 1, "wa")]),
+                  {"wa": dag("single", [1])}, {"kind": "queue"})
+    for vals in itertools.product((False, True), repeat=4):
+        r = runmod.build(case, None, 50, True)
+        sim = r.sim
+        calls = []
+
+        def mk(name, v):
+            def q():
+                calls.append(name)
+                return v
+            return q
+        sim.buffer.is_empty = mk("buffer", vals[0])
+        sim.cluster.is_idle = mk("cluster", vals[1])
+        sim.scheduler.is_idle = mk("scheduler", vals[2])
+        sim.instrument.is_idle = mk("telescope", vals[3])
+        try:
+            got = sim.is_finished()
+        except Exception as e:
+            got = repr(e)
+        r.probe.done = True
+        runmod.seams._CUR["probe"] = None
+        rep.evaluations += 1
+        rep.transitions += 1
+        rep.scope("E3-is_finished-truth-table")["cases"] += 1
+        rep.scope("E3-is_finished-truth-table")["executions"] += 1
+        if got is not all(vals) and got != all(vals) or \
+                not isinstance(got, bool):
+            names = ("buffer", "cluster", "scheduler", "telescope")
+            ignored = [n for n, v in zip(names, vals) if not v] \
+                if got is True else []
+            rep.violation(
+                "C19.finished-iff-all-idle",
+                "truth-table:finished-%s" % (
+                    "without-" + "+".join(ignored) if got is True
+                    else "not-reported" if got is False else "raised"),
+                {"engine": "E3", "truth_table": list(vals)},
+                {"answers": dict(zip(names, vals)), "is_finished": got},
+                "E3-is_finished-truth-table")
+
+
+def zero_volume_cases():
+    """an observation whose rate rounds to 0 occupies no buffer space: the
+    buffer is 'empty' while its workflow is queued and running"""
+    from ..scopes import mkobs, mkcfg, mkcase, dag, CLUSTERS
+    out = []
+    for M in (1, 2):
+        for wf in (dag("chain3", [1, 2, 1], [0, 0]), dag("fork", [1, 1, 2],
+                                                         [1, 0])):
+            for second in (None, 3):
+                obs = [mkobs("a", 0, 2, 0.4, 1, 1, "wa")]
+                wfs = {"wa": wf}
+                if second is not None:
+                    obs.append(mkobs("b", second, 1, 0.4, 1, 1, "wb"))
+                    wfs["wb"] = dag("chain2", [1, 1], [0])
+                cfg = mkcfg(CLUSTERS[M][0], obs, (100, 10), (100, 10), 2, 2)
+                for alg in ({"kind": "queue"}, {"kind": "batch", "p": 1,
+                                                "min": 1}):
+                    out.append(("S-zero-volume", mkcase(cfg, wfs, alg)))
+    return out
 
 
 def run(rep, tier, seed):
     rep.rule = RULE
+    truth_table(rep)
     rep.assumptions = ["one-directional for the four actor queries (the "
                        "statement says 'only when'); is_finished is "
                        "compared both ways with the conjunction"]
@@ -62,13 +135,19 @@ def run(rep, tier, seed):
     conf = rep.confirm
 
     def confirm(payload):
-        if payload.get("engine") == "E2":
+        if payload.get("engine") in ("E2", "E3"):
             return replay(payload)
         return conf(payload)
     rep.confirm = confirm
 
 
 def replay(payload):
+    if payload.get("engine") == "E3":
+        from ..report import Reporter
+        tmp = Reporter("C19", "quick", 0)
+        truth_table(tmp)
+        return [{"clause": v["clause"], "cause": v["cause"],
+                 "detail": v["detail"]} for v in tmp.violations]
     if payload.get("engine") == "E2":
         vs = e2.replay_history(payload["M"],
                                [tuple(h) for h in payload["history"]])
